@@ -132,6 +132,25 @@ func (e *Exec) doSelect(g *Goroutine, cases []selCase, hasDefault bool, in ssa.I
 			}
 		}
 	}
+	if len(ready) > 0 && hasDefault {
+		// a non-blocking poll: a time-out that has not been seen to pass is "not yet" unless the
+		// budget says otherwise
+		spont := true
+		for _, i := range ready {
+			if !isSpont(i) {
+				spont = false
+				break
+			}
+		}
+		if spont {
+			if e.preempts > 0 && e.choose(2) == 1 {
+				e.preempts--
+				e.sched++
+			} else {
+				return -1, nil, false, false
+			}
+		}
+	}
 	if len(ready) > 0 && !hasDefault {
 		spont := true
 		for _, i := range ready {
